@@ -60,10 +60,12 @@ def unit(shape, cv):
 
 
 class Cfg:
-    def __init__(self, name, f, vs, note=None):
+    def __init__(self, name, f, vs, note=None, part2=None):
         """vs: list of differentiation variables (Variable or Coefficient), applied in order
-        (one or two)."""
+        (one or two).  part2 = (f2, v2, "sum"|"prod"): a second diff node in the SAME expression
+        (scalar f, f2 and scalar variables), expanded in one expand_derivatives call."""
         self.name, self.f, self.vs = name, f, list(vs)
+        self.part2 = part2
         self.note = dict(note or {})
         self.out = None
         self.raised = None
@@ -73,6 +75,9 @@ class Cfg:
             d = self.f
             for v in self.vs:
                 d = diff(d, v)
+            if self.part2 is not None:
+                f2, v2, mode = self.part2
+                d = d + diff(f2, v2) if mode == "sum" else d * diff(f2, v2)
             self.out = expand_derivatives(d)
         except Exception as ex:  # noqa: BLE001
             self.raised = f"{type(ex).__name__}: {ex}"[:200]
@@ -81,8 +86,9 @@ class Cfg:
     def prepared(self):
         """(F', out', [T_1, ..]) with variable nodes replaced by fresh terminals."""
         F, out, Ts = self.f, self.out, []
+        F2 = self.part2[0] if self.part2 is not None else None
         done = {}
-        for v in self.vs:
+        for v in self.vs + ([self.part2[1]] if self.part2 is not None else []):
             if isinstance(v, C.Variable):
                 key = v.label()
                 if key not in done:
@@ -90,15 +96,30 @@ class Cfg:
                     done[key] = T
                     F = subst_variable(F, key, T)
                     out = subst_variable(out, key, T)
+                    if F2 is not None:
+                        F2 = subst_variable(F2, key, T)
                 Ts.append(done[key])
             else:
                 Ts.append(v)
+        self.F2s = F2
         return F, out, Ts
 
     def cases(self):
         F, out, Ts = self.prepared()
         rank = len(self.f.ufl_shape)
         res = []
+        if self.part2 is not None:
+            # node 1: d/dT1 (G), node 2: d/dT2 (H); scalar everything
+            var1, var2 = {Ts[0]: unit((), ())}, {Ts[1]: unit((), ())}
+            p2 = (self.F2s, var2, self.part2[2])
+            cs = K.DCase(f"{self.name}_d", F, out, var1, nonzero=K.definedness(F) + K.definedness(self.F2s),
+                         note=dict(self.note, f=str(self.f)[:140], f2=str(self.part2[0])[:140]),
+                         spatial=True, extra_terms=Ts, part2=p2)
+            cs.cfg = self
+            cs.oracle_args = (F, out, var1, None, None)
+            cs.oracle_part2 = p2
+            self.shape_ok = tuple(self.out.ufl_shape) == ()
+            return [cs]
         cvs = [K.comps_of(v.ufl_shape) for v in self.vs]
         import itertools
         for combo in itertools.product(*cvs):
@@ -197,6 +218,29 @@ def configurations(tier, seed):
     cfgs.append(Cfg("g_indep", vu * vu * v1 * v1 + ufl.sin(vu * v1), [v1, vu],
                     note={"repeated": "diff(diff(f, v1), u), independent variables"}))
     cfgs.append(Cfg("g_vec", inner(vv, vv) * vv[0], [vv, vv], note={"repeated": "vector variable twice"}))
+    # G. variables wrapping expressions that expand_derivatives itself rewrites (derivatives of
+    #    non-terminals inside the variable): the variable must still be recognised by its label
+    vg = variable(grad(w * w))
+    vdx = variable((w * w * f).dx(0))
+    vdiv = variable(ufl.div(wv * f))
+    vlap = variable(ufl.div(grad(w * w)))
+    vgv = variable(grad(wv * f))
+    vd = variable(diff(v * v * f, v))
+    for nm, F, x in [("grad_dot", dot(vg, vg), vg), ("grad_comp", vg[0] * f + vg[1] * vg[1] * w, vg),
+                     ("dx_sq", vdx * vdx * f, vdx), ("dx_sin", ufl.sin(vdx) * w, vdx), ("div_sq", vdiv ** 2 * f, vdiv),
+                     ("lap", vlap * vlap + vlap * w, vlap), ("gradvec", inner(vgv, vgv) + vgv[0, 1] * vgv[1, 0], vgv),
+                     ("of_diff", vd * vd * w, vd), ("nested_in", variable(vdx * vdx + f) * vdx, vdx),
+                     ("ident", vg, vg)]:
+        cfgs.append(Cfg(f"h_{nm}", F, [x], note={"variable": "wraps a derivative of a non-terminal", "rule": nm}))
+    cfgs.append(Cfg("h_twice", vdx ** 3 * f, [vdx, vdx], note={"variable": "wraps (w*w*f).dx(0)", "repeated": True}))
+    # H. several diff nodes expanded in ONE call (shared dispatcher / ruleset caches) ----------------
+    vq = variable(w)          # a second variable of the same coefficient (different label)
+    for nm, f1, x1, f2, x2 in [("two_vars", v * v * f, v, ve * ve * g, ve), ("same_expr", v * vq * vq, v, v * vq * vq, vq),
+                               ("same_var", v * v * f, v, ufl.sin(v) * g, v), ("var_coef", v * w * w, v, v * w * w, w),
+                               ("wrapped", vdx * vdx * v, vdx, vdx * vdx * v, v)]:
+        for mode in ("sum", "prod"):
+            cfgs.append(Cfg(f"i_{nm}_{mode}", f1, [x1], part2=(f2, x2, mode),
+                            note={"two diff nodes in one expression": mode, "pair": nm}))
     # F. generated nested expressions -------------------------------------------------------------
     rng = random.Random(2000 + seed)
     nrand = 8 if tier == "quick" else 30
@@ -217,8 +261,12 @@ def main(run):
     for c in cfgs:
         run.count_case((c.name, str(c.f)))
         if c.raised is not None:
-            run.violation({"broken": "diff of a supported configuration raised", "case": c.name,
-                           "f": str(c.f), "exception": c.raised, "note": c.note}, False)
+            # C04 has no "or raises" clause: an input on which diff raises is a failing input
+            run.violation({"broken": "expand_derivatives(diff(f, v)) raised for a valid input", "case": c.name,
+                           "f": str(c.f), "f_repr": repr(c.f)[:1500], "variables": [str(v) for v in c.vs],
+                           "exception": c.raised, "note": c.note,
+                           "reproduce": "expand_derivatives(diff(f, v)) with f, v as above (py/props/C04.py "
+                                        f"configurations(), case {c.name})"}, True)
             continue
         try:
             cs = c.cases()
@@ -255,7 +303,7 @@ def main(run):
         for other in [case] + [x for x in cases if x.cfg is c and x is not case]:
             F, out, var1, var2, rank = other.oracle_args
             w = K.derivative_oracle(F, out, var1, trials=30 if run.tier == "quick" else 200, seed=run.seed,
-                                    prefix_rank=rank, variation2=var2)
+                                    prefix_rank=rank, variation2=var2, part2=getattr(other, "oracle_part2", None))
             if w:
                 # restrict to the components of this unit direction
                 w["unit_direction"] = other.note.get("cv")
